@@ -306,6 +306,45 @@ fn blocked_probe_race(strategy: cb::BreakerStrategy, stale_ok: bool, second_requ
     })
 }
 
+/// (h) one breaker, Open, retry timeout elapsed, and a flow rule that rejects every entry: each
+/// request elected as the probe is rejected by the flow rule and must be taken back (Half-Open ->
+/// Open, announced); nobody passes; once the flow rule is gone the next request is the probe
+fn probe_rejected_by_flow_rule(n: usize) -> Body {
+    Arc::new(move || {
+        let log = setup(&[cb::BreakerStrategy::ErrorCount]);
+        EARLY_PROBE_ORACLE.store(false, std::sync::atomic::Ordering::SeqCst);
+        open_all();
+        sentinel_core::flow::load_rules(vec![Arc::new(sentinel_core::flow::Rule { id: "deny".into(), resource: RES.into(), threshold: 0.0, stat_interval_ms: 1000, ..Default::default() })]);
+        clock::advance_ms(100);
+        let hs: Vec<_> = (0..n).map(|_| shuttle::thread::spawn(move || build().is_ok() as usize)).collect();
+        let passed: usize = hs.into_iter().map(|h| h.join().unwrap()).sum();
+        let ends = check_paths(&log, St::Closed);
+        let l = log.lock().unwrap().clone();
+        if passed != 0 {
+            panic!("ORACLE: pass-despite-flow-rule: {} request(s) passed a flow rule of threshold 0; log {:?}", passed, l);
+        }
+        if ends[0].1 != St::Open {
+            panic!("ORACLE: probe-not-rolled-back: every request was rejected (by the flow rule), yet the breaker ends {:?} with no probe in flight; log {:?}", ends[0].1, l);
+        }
+        let probes = l.iter().filter(|e| e.2 == St::HalfOpen).count();
+        let rollbacks = l.iter().filter(|e| e.1 == St::HalfOpen && e.2 == St::Open).count();
+        if probes != rollbacks {
+            panic!("ORACLE: probe-not-rolled-back: {} probe elections, {} roll-backs announced; log {:?}", probes, rollbacks, l);
+        }
+        sentinel_core::flow::clear_rules();
+        // the resource recovers: the next request is the probe and closes the breaker
+        match build() {
+            Ok(e) => e.exit(),
+            Err(_) => panic!("ORACLE: stuck-after-rollback: with the flow rule gone and the retry timeout elapsed the next request is still rejected; log {:?}", l),
+        }
+        if st(cb::get_breakers_of_resource(&RES.to_string())[0].current_state()) != St::Closed {
+            panic!("ORACLE: stuck-after-rollback: the successful probe did not close the breaker");
+        }
+        outcome(format!("events={} probes={}", l.len(), probes));
+        teardown(vec![]);
+    })
+}
+
 /// (g) two breakers on the resource, both Open; the retry timeout of the first has elapsed, that of
 /// the second has not: no request may pass, whichever breaker is consulted first
 fn sibling_still_open(n: usize) -> Body {
@@ -330,6 +369,10 @@ fn sibling_still_open(n: usize) -> Body {
         }
         if ends.iter().any(|(id, e)| id == "b1" && *e != St::Open) {
             panic!("ORACLE: sibling-state: breaker b1 left Open before its retry timeout; log {:?}", l);
+        }
+        // a probe that b0 elected was rejected by b1: b0 took it back (Half-Open -> Open)
+        if ends.iter().any(|(id, e)| id == "b0" && *e != St::Open) {
+            panic!("ORACLE: probe-not-rolled-back: every request was rejected (by breaker b1), yet breaker b0 ends {:?} with no probe in flight; log {:?}", ends.iter().find(|x| x.0 == "b0").unwrap().1, l);
         }
         outcome(format!("events={} passed={}", l.len(), passed));
         teardown(vec![]);
@@ -385,6 +428,8 @@ pub fn scenarios(thorough: bool) -> Vec<Scenario> {
     }
     // a sibling breaker that is still Open before its own retry timeout
     v.push(Scenario { name: "two-breakers:short-timeout-elapsed,long-not:2-requests".into(), bound: b2, cap: 0, body: sibling_still_open(2) });
+    // (h) the elected probe is rejected by a flow rule
+    v.push(Scenario { name: "probe-rejected-by-flow-rule:2-requests".into(), bound: b2, cap: 0, body: probe_rejected_by_flow_rule(2) });
     // probes that fail at once: no second probe in the new Open period
     v.push(Scenario { name: "open->halfopen:ErrorCount:2-requests-failing-at-once".into(), bound: b2, cap: 0, body: failing_probes(ErrorCount, 2) });
     if thorough {
